@@ -24,7 +24,7 @@ class DelimitedSerializationMode(SerializationMode):
         self.extent = int(extent)
 
     def __str__(self) -> str:
-        return "delimited (extent %d bits)" % self.extent
+        return "delimited (extent %s bits)" % _error.format_integer(self.extent)
 
 
 class SealedSerializationMode(SerializationMode):
